@@ -92,11 +92,13 @@ class Sim:
         return self._run([self.binary] + list(args), cwd=cwd, env=self.env(env_extra), stdin=stdin)
 
     # ------------------------------------------------------------ repo basics
-    def init(self, files=None):
+    def init(self, files=None, exec_files=()):
         os.makedirs(self.repo, exist_ok=True)
         self.realgit("init", "-q", ".")
         for p, t in (files or {}).items():
             self.write(p, t)
+        for p in exec_files:                       # tracked with mode 100755
+            os.chmod(os.path.join(self.repo, p), 0o755)
         if files:
             self.realgit("add", "-A")
             self.git("commit", "-q", "-m", "base")
